@@ -24,7 +24,7 @@ CLAIMS = {
             "refinement proof to an RFC 7541 spec decoder + relational wire grammar (Coq)", NOTE_TIE_ABC + NOTE_TIE_D, "7 C02/C05"),
     "C03": ("every encoder block is a wire form of a representation sequence well-formed for the peer context whose meaning is the input (C03_block_meaning), over every history (C03_every_history)",
             "simulation proof encoder vs RFC spec decoder (Coq)", NOTE_TIE_ABC + NOTE_TIE_D, "7 C10/C01/C03"),
-    "C04": ("totality theorem: no escape route of the model (IndexError, ValueError, UnicodeDecodeError, fuel) is reachable from decode, for every input, configuration and history (C04_every_history)",
+    "C04": ("totality theorem: no escape route of the model (IndexError, ValueError, UnicodeDecodeError, fuel) is reachable from decode, for every input, configuration and history (C04_every_history); the documented family is Python's subclass relation over the class headers regenerated from exceptions.py (Bridge/B_exn.v, src_C04_family_of_the_source)",
             "totality/unreachability proof over all inputs and histories (Coq)", NOTE_TIE_ABC + NOTE_TIE_D, "7 C04"),
     "C05": ("acceptance <=> RFC decoder accepts, exact error class map, limit latitude, defect-class lemmas (Props/C05.v)",
             "refinement proof + defect-class lemmas on the spec decoder (Coq)", NOTE_TIE_ABC + NOTE_TIE_D, "7 C02/C05"),
